@@ -30,6 +30,7 @@ what = {
  "D17": "subclasscheck is not transitive through {pair}: B <= A <= T but not B <= T; inherent in the documented meaning of the constructor",
 }
 what["D23"] = what["D23"] + "; or it sits in one type-level rank with static methods that recency or a lower rank would have separated, and the dispatcher of that rank, which counts matches, reports an ambiguity although the documented rule has a winner"
+what["D46"] = "a parameter called MISSING, KWARGS, TARGS, OVLD or ARG<n> collides with a name hard-wired in the generated entry point"
 what["D8b"] = "an optional positional parameter passed by keyword while an earlier optional positional is omitted: the generated entry point exits at the first omitted positional, so the keyword-given one is not part of the lookup key (and may be rejected or routed to another method); residual of finding D8, whose repair keeps keyword-only arguments (recode.py generate_dispatch early exits)"
 path = "/verif/known_findings.json"
 try:
